@@ -11,9 +11,22 @@ Export ListNotations.
 Local Open Scope N_scope.
 
 (** observed result of a point read: not found / error / value + meta *)
-Inductive robs := RN | RE | RV (v : string) (m : N).
-Definition to_obs (r : robs) : obs :=
-  match r with RN => ONone | RE => OErr | RV v m => OVal (unhex v) m end.
+(** observed value bytes: literally, or "the bytes of the write with ghost number n" (keeps the case files small) *)
+Inductive vref := VH (s : string) | VS (n : N).
+Definition deref (ws : list rec) (v : vref) : option bytes :=
+  match v with
+  | VH s => Some (unhex s)
+  | VS n => option_map r_val (find (fun w => r_seq w =? n) ws)
+  end.
+Inductive robs := RN | RE | RV (v : vref) (m : N).
+(** [None]: a dangling reference (reported as a mismatch) *)
+Definition to_obs (ws : list rec) (r : robs) : option obs :=
+  match r with
+  | RN => Some ONone
+  | RE => Some OErr
+  | RV v m => option_map (fun b => OVal b m) (deref ws v)
+  end.
+Definition item := (string * N * vref * N)%type.
 
 Inductive xop :=
 | XW (batch : list rec)                                   (* one acknowledged write request, full values *)
@@ -28,8 +41,8 @@ Inductive xop :=
 | XGetV (k : bytes) (v : N) (o : robs)                    (* GetVersionedEntry *)
 | XGetP (k : bytes) (o : robs)                            (* GetCF *)
 | XGetT (k : bytes) (ts : N) (o : robs)                   (* Txn.Get at its read timestamp *)
-| XIter (items : list (string * N * string * N))          (* DB iterator: base key, version, value, meta *)
-| XIterSame (before after : list (string * N * string * N)).
+| XIter (items : list item)                               (* DB iterator: base key, version, value, meta *)
+| XIterSame (before after : list item).
 
 Record case := { c_memid : N; c_now : N; c_cfg : cfg; c_ops : list xop }.
 
@@ -93,12 +106,22 @@ Definition has (k : bytes) (l : list bytes) : bool := existsb (bytes_eqb k) l.
       3  the read fails in the value log: a deleted/expired entry whose file GC removed
       11 an older write of the same version answers (C01-F2 / C02-F2: equal internal keys in tables
          whose order is not their age), not caused by GC
-      12 an older version answers although no GC touched the key (C02-F4) *)
-Definition classify (now : N) (a : acc) (k : bytes) (spec lsm : option rec) (agree : bool) (o : obs) : N :=
+      12 an older version answers although no GC touched the key (C02-F4)
+      4  Txn.Get reports a zero-length value (meta 0) as absent once a table serves it *)
+Definition classify (now : N) (a : acc) (k : bytes) (spec lsm : option rec) (agree txn : bool) (o : obs) : N :=
   if has k (a_raced a) then 1
   else if negb agree then 999
   else match o, lsm with
        | OErr, Some m => if dead now m then 3 else 999
+       | ONone, Some m =>
+           if txn && (blen (r_val m) =? 0) && (r_meta m =? 0) &&
+              match spec with Some w => (r_ver w =? r_ver m) && (r_seq w =? r_seq m) | None => false end
+           then 4
+           else match spec with
+                | Some w => if r_ver m <? r_ver w then (if has k (a_moved a) then 2 else 12)
+                            else if (r_ver m =? r_ver w) && (r_seq m <? r_seq w) then 11 else 999
+                | None => 999
+                end
        | _, _ =>
            match spec, lsm with
            | Some w, Some m =>
@@ -108,29 +131,51 @@ Definition classify (now : N) (a : acc) (k : bytes) (spec lsm : option rec) (agr
            end
        end.
 
-Definition read_step (now : N) (a : acc) (k : bytes) (v : N) (live : bool) (o : robs) : acc :=
+Definition read_step (now : N) (a : acc) (k : bytes) (v : N) (live txn : bool) (o : robs) : acc :=
   let d := a_db a in
-  let m := if live then db_get_live now d k v else db_get d k v in
-  let sp := if live then spec_get now (a_ws a) k v else spec_getv (a_ws a) k v in
-  let agree := obs_eqb (gres_obs m) (to_obs o) in
-  let bad := negb (obs_eqb sp (to_obs o)) in
-  flag a (negb agree) bad
-       (if bad then classify now a k (latest_at (a_ws a) k v) (get (d_lsm d) k v) agree (to_obs o) else 0).
+  match to_obs (a_ws a) o with
+  | None => flag a true false 0
+  | Some ob =>
+      let m := if txn then txn_get now d k v else if live then db_get_live now d k v else db_get d k v in
+      let sp := if live then spec_get now (a_ws a) k v else spec_getv (a_ws a) k v in
+      let agree := obs_eqb (gres_obs m) ob in
+      let bad := negb (obs_eqb sp ob) in
+      flag a (negb agree) bad
+           (if bad then classify now a k (latest_at (a_ws a) k v) (get (d_lsm d) k v) agree txn ob else 0)
+  end.
 
 Definition keys_of (l : list rec) : list bytes := map r_key l.
 
-Definition item_model_ok (d : db) (it : string * N * string * N) : bool :=
+(** an iterator item is one of the LSM's copies of that internal key, materialised *)
+Definition item_model_ok (d : db) (ws : list rec) (it : item) : bool :=
   let '(k, ver, val, _) := it in
-  existsb (fun x => bytes_eqb (r_key x) (unhex k) && (r_ver x =? ver) &&
-                    match resolve (d_vl d) x with GVal r => bytes_eqb (r_val r) (unhex val) | _ => false end)
-          (contents (d_lsm d)).
-Definition item_spec_ok (ws : list rec) (it : string * N * string * N) : bool :=
-  let '(k, ver, val, _) := it in item_written_b ws (unhex k, ver, unhex val).
+  match deref ws val with
+  | None => false
+  | Some b =>
+      existsb (fun x => if bytes_eqb (r_key x) (unhex k) then
+                          if r_ver x =? ver then
+                            match resolve (d_vl d) x with GVal r => bytes_eqb (r_val r) b | _ => false end
+                          else false
+                        else false)
+              (contents (d_lsm d))
+  end.
+Definition item_spec_ok (ws : list rec) (it : item) : bool :=
+  let '(k, ver, val, _) := it in
+  match deref ws val with
+  | None => true
+  | Some b => item_written_b ws (unhex k, ver, b)
+  end.
 
-Definition item_eqb (x y : string * N * string * N) : bool :=
+Definition vref_eqb (a b : vref) : bool :=
+  match a, b with
+  | VH x, VH y => String.eqb x y
+  | VS x, VS y => x =? y
+  | _, _ => false
+  end.
+Definition item_eqb (x y : item) : bool :=
   let '(k, ver, val, m) := x in let '(k', ver', val', m') := y in
-  String.eqb k k' && (ver =? ver') && String.eqb val val' && (m =? m').
-Fixpoint items_eqb (a b : list (string * N * string * N)) : bool :=
+  String.eqb k k' && (ver =? ver') && vref_eqb val val' && (m =? m').
+Fixpoint items_eqb (a b : list item) : bool :=
   match a, b with
   | [], [] => true
   | x :: a', y :: b' => item_eqb x y && items_eqb a' b'
@@ -171,13 +216,21 @@ Definition step (c : cfg) (now : N) (a : acc) (o : xop) : acc :=
                    st_lvls := map (fun p => adopt (fst p) (snd p)) (combine (st_lvls s) lvls);
                    st_maxfid := st_maxfid s |} in
       flag (upd a (with_lsm d (if ok then s' else s))) (negb ok) false 0
-  | XGetV k v o => read_step now a k v false o
-  | XGetP k o => read_step now a k max_ver true o
-  | XGetT k ts o => read_step now a k ts true o
+  | XGetV k v o => read_step now a k v false false o
+  | XGetP k o => read_step now a k max_ver true false o
+  | XGetT k ts o => read_step now a k ts true true o
   | XIter items =>
-      flag a (negb (forallb (item_model_ok d) items)) (negb (forallb (item_spec_ok (a_ws a)) items)) 999
+      flag a (negb (forallb (item_model_ok d (a_ws a)) items)) (negb (forallb (item_spec_ok (a_ws a)) items)) 999
   | XIterSame before after =>
-      flag a false (negb (items_eqb before after)) 999
+      (* items that disappeared or changed: class 2 when every such key was moved by an earlier GC
+         (the lookup GC relies on answers with the re-inserted older version, so GC discards the
+         newer version's record and removes its file) *)
+      let gone := filter (fun x => negb (existsb (item_eqb x) after)) before in
+      let cls := match gone with
+                 | [] => 999
+                 | _ => if forallb (fun x => has (unhex (fst (fst (fst x)))) (a_moved a)) gone then 2 else 999
+                 end in
+      flag a false (negb (items_eqb before after)) cls
   end.
 
 Definition replay (c : case) : acc :=
